@@ -12,8 +12,11 @@ Games ==
       [] Family = "dead" -> DescribeAll("dead", Pick(K, DeadGames))
       [] Family = "deadall" -> DescribeAll("dead", DeadGames)
       [] Family = "hist" -> HistFamily
+      [] Family = "edit" -> EditFamily
       [] Family = "perm" -> PermFamily
       [] Family = "tiny" -> DescribeAll("tiny", Pick(K, TinyGames) \cup Pick(K, TinyChains))
+      [] Family = "nonabs" -> DescribeAll("nonabs", Pick(K, NonAbsGames))
+      [] Family = "bigrew" -> DescribeAll("bigrew", Pick(K, BigRewGames))
       [] Family = "ties" -> DescribeAll("ties", Pick(K, TieGames))
       [] Family = "tiesall" -> DescribeAll("ties", TieGames)
 
